@@ -219,7 +219,7 @@ pub fn check_exec(source: &str, tgt: Tgt, arg_seed: u64, vectors: usize) -> Verd
 pub fn check_exec_named(source: &str, tgt: Tgt, arg_seed: u64, vectors: usize, emitted: &std::collections::HashMap<String, String>) -> Verdict {
     let out_name = |n: &str| -> String { emitted.get(n).cloned().unwrap_or_else(|| n.to_string()) };
     let module = match type_check_text(source) {
-        Err(p) => return Verdict::Fail { signature: format!("panic:{}", p), detail: "front end panicked".into() },
+        Err(p) => return Verdict::Skip(format!("front end panicked (totality is C08's property): {}", norm(&p))),
         Ok(Err(d)) => return Verdict::Skip(format!("front end rejects: {}", norm(d.lines().next().unwrap_or("")))),
         Ok(Ok(m)) => m,
     };
@@ -243,7 +243,7 @@ pub fn check_exec_named(source: &str, tgt: Tgt, arg_seed: u64, vectors: usize, e
         out_name(&def.name.node)
     };
     let text = match compile_text(source, tgt) {
-        Err(p) => return Verdict::Fail { signature: format!("panic:{}", p), detail: "compile panicked".into() },
+        Err(p) => return Verdict::Skip(format!("exporter panicked (totality is C08's property): {}", norm(&p))),
         Ok(Err(d)) => return Verdict::Skip(format!("backend rejects: {}", norm(d.lines().next().unwrap_or("")))),
         Ok(Ok(p)) => match p.first() {
             Some(p) => pipeline_text(p),
@@ -677,25 +677,68 @@ fn entry_text(module: &ir::Module) -> Option<(String, usize)> {
     Some((format!("\n{}[numthreads(1, 1, 1)]\nvoid zz_entry(uint3 zz_id : SV_DispatchThreadID) {{\n{}}}\nPipeline ZZ_P {{ ComputeShader = zz_entry; }}\n", statics, body), calls))
 }
 
+/// One program of the table `hidden_root_names` (96 programs): names of the root scope used with a leading `::` where a
+/// namespace, a struct or a function declares the same name
+pub fn hidden_root_name_source(i: u64) -> String {
+        let bits = i % 16;
+        let place = (i / 16) % 6;
+        let decls = format!(
+            "{}{}{}{}",
+            if bits & 1 != 0 { "static int za = 100;\n" } else { "" },
+            if bits & 2 != 0 { "static const int zc = 200;\n" } else { "" },
+            if bits & 4 != 0 { "int zf(int k) { return k + 3000; }\nint zf(float k) { return 4000; }\n" } else { "" },
+            if bits & 8 != 0 { "struct ZS { int m; int n; };\n" } else { "" },
+        );
+        let body = "::ZS s; s.m = k; ZS t; t.m = 7; ::za = ::za + 1; za = za + 2; return ::za + ::zc * 2 + ::zf(k) * 3 + s.m * 5 + za * 7 + zc * 11 + zf(k) * 13 + t.m;";
+        let (inner, call) = match place {
+            0 => (format!("{}int zin(int k) {{ {} }}\n", decls, body), "ZN::zin(k)".to_string()),
+            1 => (format!("{}namespace ZM {{\nint zin(int k) {{ {} }}\n}}\n", decls, body), "ZN::ZM::zin(k)".to_string()),
+            2 => (format!("namespace ZM {{\n{}int zin(int k) {{ {} }}\n}}\n", decls, body), "ZN::ZM::zin(k)".to_string()),
+            _ => (format!("{}struct ZW {{ int zq; {} int zin(int k) {{ {} }} }};\nint zcall(int k) {{ ZW w; w.zq = 3; {} return w.zin(k) + w.zq; }}\n", decls, if bits & 1 != 0 { "int zc;" } else { "int za;" }, body.replace("za = za + 2;", "zq = zq + 2;"), if bits & 1 != 0 { "w.zc = 9;" } else { "w.za = 9;" }), "ZN::zcall(k)".to_string()),
+        };
+        if place == 5 {
+            // parameters and locals (also of an inner block) of a root-scope function carry the names of root entities
+            let (param, local, inner) = [("za", "zc", "zf"), ("zc", "zf", "ZS"), ("zf", "ZS", "za"), ("ZS", "za", "zc")][(bits % 4) as usize];
+            return format!(
+                "static int za = 1;\nstatic const int zc = 2;\nint zf(int k) {{ return k + 10; }}\nint zf(float k) {{ return 20; }}\nstruct ZS {{ int m; }};\nint zin(int k, int {p}) {{ int {l} = k + 3; {{ int {n} = 5; {l} += {n}; }} ::ZS s; s.m = k; ::za = ::za + 1; return ::za + ::zc * 2 + ::zf(k) * 3 + s.m * 5 + {p} * 7 + {l} * 11; }}\nint zuse(int k) {{ return zin(k, 6) + za; }}\n",
+                p = param, l = local, n = inner
+            );
+        }
+        if place == 4 {
+            // a struct of the root scope whose members carry the names of root entities; its method names both
+            let members = ["int za; int zc;", "int zc; int zf;", "int za; int ZS;", "int zf; int za;"][(bits % 4) as usize];
+            let first = members.split_whitespace().nth(1).unwrap_or("za;").trim_end_matches(';').to_string();
+            let second = members.split_whitespace().nth(3).unwrap_or("zc;").trim_end_matches(';').to_string();
+            return format!(
+                "static int za = 1;\nstatic const int zc = 2;\nint zf(int k) {{ return k + 10; }}\nint zf(float k) {{ return 20; }}\nstruct ZS {{ int m; }};\nstruct ZW {{ {} int zin(int k) {{ ::ZS s; s.m = k; ::za = ::za + 1; {} = {} + 2; return ::za + ::zc * 2 + ::zf(k) * 3 + s.m * 5 + {} * 7 + {} * 11; }} }};\nint zuse(int k) {{ ZW w; w.{} = 9; w.{} = 4; return w.zin(k) + w.{} + za; }}\n",
+                members, first, first, first, second, first, second, first
+            );
+        }
+        format!(
+            "static int za = 1;\nstatic const int zc = 2;\nint zf(int k) {{ return k + 10; }}\nint zf(float k) {{ return 20; }}\nstruct ZS {{ int m; }};\nnamespace ZN {{\n{}}}\nint zuse(int k) {{ return {} + za; }}\n",
+            inner, call
+        )
+}
+
 /// The oracle for whole pipelines: the program gets a compute entry point that calls its functions; the entry point
 /// of the typed IR and the generated entry point of the emitted text are run on thread ids and the final values of
 /// all static variables are compared (in Metal they live in the generated entry point and travel as references).
 pub fn check_exec_entry(base: &str, tgt: Tgt, arg_seed: u64, vectors: usize) -> Verdict {
     let base_module = match type_check_text(base) {
-        Err(p) => return Verdict::Fail { signature: format!("panic:{}", p), detail: "front end panicked".into() },
+        Err(p) => return Verdict::Skip(format!("front end panicked (totality is C08's property): {}", norm(&p))),
         Ok(Err(d)) => return Verdict::Skip(format!("front end rejects: {}", norm(d.lines().next().unwrap_or("")))),
         Ok(Ok(m)) => m,
     };
     let Some((entry, calls)) = entry_text(&base_module) else { return Verdict::Skip("no function to call from an entry point".into()) };
     let source = format!("{}{}", base, entry);
     let module = match type_check_text(&source) {
-        Err(p) => return Verdict::Fail { signature: format!("panic:{}", p), detail: format!("front end panicked\n{}", source) },
+        Err(p) => return Verdict::Skip(format!("front end panicked (totality is C08's property): {}", norm(&p))),
         Ok(Err(d)) => return Verdict::Skip(format!("front end rejects the entry point: {}", norm(d.lines().next().unwrap_or("")))),
         Ok(Ok(m)) => m,
     };
     let files = vec![("main.rssl".to_string(), source.clone())];
     let text = match compile(&CompileReq { files: &files, entry: "main.rssl", defines: &[], tgt, mode: Mode::All, validate_layout: false }) {
-        Err(p) => return Verdict::Fail { signature: format!("panic:{}", p), detail: format!("compile panicked\n{}", source) },
+        Err(p) => return Verdict::Skip(format!("exporter panicked (totality is C08's property): {}", norm(&p))),
         Ok(Err(d)) => return Verdict::Skip(format!("backend rejects: {}", norm(d.lines().next().unwrap_or("")))),
         Ok(Ok(p)) => match p.first() {
             Some(p) => pipeline_text(p),
@@ -976,34 +1019,39 @@ pub fn run_common(ctx: &mut Ctx, targets: &'static [Tgt], check: fn(&Value) -> V
     }
     // ---- names of the root scope used (with a leading ::) where a namespace or a struct declares the same name
     {
-        let hidden_source = |i: u64| -> String {
-            let bits = i % 16;
-            let place = (i / 16) % 4;
-            let decls = format!(
-                "{}{}{}{}",
-                if bits & 1 != 0 { "static int za = 100;\n" } else { "" },
-                if bits & 2 != 0 { "static const int zc = 200;\n" } else { "" },
-                if bits & 4 != 0 { "int zf(int k) { return k + 3000; }\nint zf(float k) { return 4000; }\n" } else { "" },
-                if bits & 8 != 0 { "struct ZS { int m; int n; };\n" } else { "" },
-            );
-            let body = "::ZS s; s.m = k; ZS t; t.m = 7; ::za = ::za + 1; za = za + 2; return ::za + ::zc * 2 + ::zf(k) * 3 + s.m * 5 + za * 7 + zc * 11 + zf(k) * 13 + t.m;";
-            let (inner, call) = match place {
-                0 => (format!("{}int zin(int k) {{ {} }}\n", decls, body), "ZN::zin(k)".to_string()),
-                1 => (format!("{}namespace ZM {{\nint zin(int k) {{ {} }}\n}}\n", decls, body), "ZN::ZM::zin(k)".to_string()),
-                2 => (format!("namespace ZM {{\n{}int zin(int k) {{ {} }}\n}}\n", decls, body), "ZN::ZM::zin(k)".to_string()),
-                _ => (format!("{}struct ZW {{ int zq; {} int zin(int k) {{ {} }} }};\nint zcall(int k) {{ ZW w; w.zq = 3; {} return w.zin(k) + w.zq; }}\n", decls, if bits & 1 != 0 { "int zc;" } else { "int za;" }, body.replace("za = za + 2;", "zq = zq + 2;"), if bits & 1 != 0 { "w.zc = 9;" } else { "w.za = 9;" }), "ZN::zcall(k)".to_string()),
-            };
-            format!(
-                "static int za = 1;\nstatic const int zc = 2;\nint zf(int k) {{ return k + 10; }}\nint zf(float k) {{ return 20; }}\nstruct ZS {{ int m; }};\nnamespace ZN {{\n{}}}\nint zuse(int k) {{ return {} + za; }}\n",
-                inner, call
-            )
-        };
+        let hidden_source = hidden_root_name_source;
         let n_t = targets.len() as u64;
         let make = |i: u64| record(&hidden_source(i / n_t), targets[(i % n_t) as usize], 0x41dd ^ i);
-        ctx.run_enum("hidden_root_names", 64 * n_t, true, make, |i| match check(&make(i)) {
+        ctx.run_enum("hidden_root_names", 96 * n_t, true, make, |i| match check(&make(i)) {
             Verdict::Pass { nontrivial, mut labels } => {
                 labels.retain(|l| !l.starts_with("compared_functions"));
                 labels.push("hidden_root_name".into());
+                Verdict::Pass { nontrivial, labels }
+            }
+            other => other,
+        });
+    }
+    // ---- a static inside a namespace and a local variable or parameter of the same plain name in a function that
+    // reaches the static only through a call (on Metal the static travels as a reference parameter named by its leaf)
+    {
+        let make_src = |i: u64| -> String {
+            let deep = i % 2 == 1;
+            let (open, close, path) = if deep { ("namespace ZN {\nnamespace ZM {\n", "}\n}\n", "ZN::ZM::") } else { ("namespace ZN {\n", "}\n", "ZN::") };
+            let body = match (i / 2) % 5 {
+                0 => format!("int zuse(int k) {{ int r = 0; if (k > -100000) {{ int zq = k * 2; r = {p}zbump() + zq; }} return r * 100 + {p}zq; }}\n", p = path),
+                1 => format!("int zuse(int k) {{ int r = 0; for (int zq = 0; zq < 2; zq++) {{ r += {p}zbump() + zq; }} return r * 100 + {p}zq; }}\n", p = path),
+                2 => format!("int zuse(int k) {{ int r = 0; {{ {{ int zq = k + 1; r = {p}zbump() * zq; }} }} return r * 100 + {p}zq; }}\n", p = path),
+                3 => format!("int zuse(int k) {{ int zq = k * 2; int r = {p}zbump() + zq; return r * 100 + {p}zq; }}\n", p = path),
+                _ => format!("int zuse(int zq) {{ int r = {p}zbump() + zq; return r * 100 + {p}zq; }}\n", p = path),
+            };
+            format!("{}static int zq = 10;\nint zbump() {{ zq += 1; return zq; }}\n{}{}", open, close, body)
+        };
+        let n_t = targets.len() as u64;
+        let make = |i: u64| record(&make_src(i / n_t), targets[(i % n_t) as usize], 0x5747 ^ i);
+        ctx.run_enum("namespaced_static_vs_local", 10 * n_t, true, make, |i| match check(&make(i)) {
+            Verdict::Pass { nontrivial, mut labels } => {
+                labels.retain(|l| !l.starts_with("compared_functions"));
+                labels.push("namespaced_static_vs_local".into());
                 Verdict::Pass { nontrivial, labels }
             }
             other => other,
